@@ -97,6 +97,15 @@ example : (selected
       [⟨none, .verbatim, .none, .none, some "`v`", some "v"⟩,
        ⟨some "Y", .endogenous, .int 0, .int 0, some "e", some "c"⟩]).map (·.type) = [.verbatim, .endogenous] := by rfl
 
+/-- "Carries an equation" means `is not None`, not truthiness: a symbol whose equation/code are EMPTY strings (an empty or
+    comment-only fenced block) is selected, the converter is called for it and its output is inserted. -/
+example : carriesCode ⟨none, .verbatim, .none, .none, some "", some ""⟩ = true ∧
+    renderBody (fun s => "# begin\n" ++ s.code.getD "" ++ "\n# end")
+      [⟨none, .verbatim, .none, .none, some "```\n\n```", some ""⟩,
+       ⟨some "Y", .endogenous, .int 0, .int 0, some "", some "self._Y[t] = 1"⟩]
+    = "        # begin\n\n        # end\n\n        # begin\n        self._Y[t] = 1\n        # end" := by
+  constructor <;> rfl
+
 /-- Symbols without an equation (or without code) contribute variables but no code. -/
 theorem no_equation_no_code (syms : List Symbol) (s : Symbol) (h : s.equation = none ∨ s.code = none) :
     s ∉ selected syms := by
